@@ -424,6 +424,21 @@ def proof_params_pin():
     return out
 
 
+def domain_generator_pin():
+    """create_domain_proof_generator(domain) is the hash-to-curve image of the domain string: what 'different generators yield
+    unrelated pseudonyms' and the hiding of commitments on such bases rest on.  Returns failures."""
+    ops = [{"op": "d_domain_gen", "domain": d.encode().hex()} for d in ("", "a", "verifier-1.example", "verifier-2.example", "x" * 200)]
+    out = []
+    for op, r in zip(ops, run_exec(ops)):
+        if r.get("r") != "ok":
+            raise Infra("d_domain_gen: " + json.dumps(r)[:300])
+        if not (r.get("same") and r.get("nontrivial")):
+            out.append({"class": None, "witness": False, "case": {"op": op, "result": r},
+                        "text": "correspondence broken: create_domain_proof_generator is not the hash-to-curve image of the domain string; with a known log relative to G "
+                                "(or to another domain's base) pseudonyms of one holder in two domains are related by a public factor"})
+    return out
+
+
 def load_known_findings(pid):
     findings, fixed = [], []
     path = os.path.join(VERIF, "known-findings.txt")
